@@ -209,11 +209,11 @@ theorem nodePath (h : DTree g P) {a b : Nat} (ha : a ∈ P.nodes) (hb : b ∈ P.
       rw [g1, g2]
   refine ⟨m, P.rank a - P.rank m, P.rank b - P.rank m, hmr, hia, hib, ?_, ?_⟩
   · unfold T.nodePath
-    simp only [(h.nodes a).1 ha, (h.nodes b).1 hb, Bool.not_true, Bool.or_self, Bool.false_eq_true, if_false]
+    simp only [h.dir, (h.nodes a).1 ha, (h.nodes b).1 hb, Bool.not_true, Bool.or_self, Bool.false_eq_true, if_false]
     rw [h.climb_std ha, h.climb_std hb]
     simp only [hstrip, if_true, hia]
   · unfold T.nodePath
-    simp only [(h.nodes a).1 ha, (h.nodes b).1 hb, Bool.not_true, Bool.or_self, Bool.false_eq_true, if_false]
+    simp only [h.dir, (h.nodes a).1 ha, (h.nodes b).1 hb, Bool.not_true, Bool.or_self, Bool.false_eq_true, if_false]
     rw [h.climb_std ha, h.climb_std hb]
     simp only [hstrip, if_false]
 
